@@ -389,9 +389,19 @@ def mon_c18(run, world, f36_out=None):
                         ok = bool(done) if ti["terminal"] else len(done) == len(ti["parents"])
                         # known finding F36: a parent that is SCHEDULED with a placement being retried has a completion
                         # estimate in the past, and its child is offered although the parent has not started
-                        overdue = [p for p in ti["parents"] if p not in fin and state.get(p) == "SCHEDULED"]
+                        overdue = []
+                        todo = [p for p in ti["parents"] if p not in fin]
+                        seen_a = set()
+                        while todo:               # incomplete ancestors, transitively
+                            a = todo.pop()
+                            if a in seen_a:
+                                continue
+                            seen_a.add(a)
+                            if state.get(a) == "SCHEDULED":
+                                overdue.append(a)
+                            todo += [q for q in info.get(a, {}).get("parents", []) if q not in fin]
                         if not ok and overdue:
-                            f36.append("VIRTUAL task %s offered at %s while its parent %s is SCHEDULED but not started" % (n, now, overdue[0]))
+                            f36.append("VIRTUAL task %s offered at %s while its ancestor %s is SCHEDULED but not started" % (n, now, overdue[0]))
                         elif not ok:
                             bad.append("VIRTUAL task %s offered at %s (no lookahead) before its predecessors completed" % (n, now))
             for t, stt in state.items():
